@@ -126,7 +126,9 @@ def finishFunc (st : PState) (f : Function) (lines : List SourceLine) (inl : Lis
   match tableOpt ls with
   | .panic s => .panic s
   | .ok tbl =>
-    let f' : Function := { f with lines := tbl, inlinees := inl.reverse.mergeSort inlineeLe }
+    -- `inlinees.retain(|i| i.size > 0); inlinees.sort();`
+    let f' : Function := { f with lines := tbl,
+                                  inlinees := (inl.reverse.filter fun i => i.size > 0).mergeSort inlineeLe }
     match f'.memoryRange with
     | some r => .ok { st with functions := (r, f') :: st.functions }
     | none => .ok st
